@@ -11,6 +11,7 @@ import ScsiVerif.Model.Handle
 import ScsiVerif.Model.Enum
 import ScsiVerif.Model.InitDevice
 import ScsiVerif.Model.Isolation
+import ScsiVerif.Std.Target
 import ScsiVerif.Std.Sense
 import ScsiVerif.Gen.Commands
 import ScsiVerif.Gen.Opcodes
@@ -21,7 +22,7 @@ open Conv Proto
 
 /-- driver state carried between lines (stateful models register their state here) -/
 structure State where
-  dummy : Unit := ()
+  target : Option Std.Target.T := none
 
 def convOp (toks : List String) : Option String :=
   match toks with
@@ -246,8 +247,28 @@ def cmdOp (toks : List String) : Option String :=
     | none => pure "none"
   | _ => none
 
+/-- the conformant Lean target behind the stand-in transports (stateful) -/
+def targetOp (s : State) (toks : List String) : Option (State × String) :=
+  match toks with
+  | ["tgtnew", bs, cap, pdt] => do
+    let bs ← bs.toNat?; let cap ← cap.toNat?; let pdt ← pdt.toNat?
+    pure ({ s with target := some ⟨bs, cap, [], pdt, "LEANTGT ".toList.map Char.toNat, "CONFORMANT BLOCK ".toList.map Char.toNat⟩ }, "ok")
+  | ["tgtcmd", cdb, dout, n] => do
+    let cdb ← parseBytes cdb; let dout ← parseBytes dout; let n ← n.toNat?
+    let t ← s.target
+    let (t', r) := Std.Target.step t cdb dout n
+    pure ({ s with target := some t' }, "ok " ++ (match r.status with | .good => "good" | .checkCondition => "cc") ++ " " ++ showBytes r.datain)
+  | ["tgtdisk", lba] => do
+    let lba ← lba.toNat?
+    let t ← s.target
+    pure (s, "ok " ++ showBytes (Std.Target.disk t lba))
+  | _ => none
+
 def step (s : State) (line : String) : State × String :=
   let toks := line.splitOn " "
+  match targetOp s toks with
+  | some r => r
+  | none =>
   match convOp toks with
   | some r => (s, r)
   | none =>
